@@ -392,6 +392,13 @@ func c11Run(w *W) {
 func init() {
 	register(&Scenario{Name: "concurrent-api", Prop: "C11", Horizon: time.Hour, Weight: 4, Run: c11Run})
 	register(&Scenario{Name: "concurrent-api-race", Prop: "C11R", Engine: "F", Horizon: time.Hour, Run: c11Run})
+	// "every call returns a result its sequential contract allows" needs a
+	// model of what the calls mean; the two checks that have one and overlap
+	// their calls run here as well: REQ batches of overlapping Send / Recv /
+	// Close explained by a serialisation (C03), REP / RESPONDENT requests
+	// answered by two goroutines at once (C05)
+	register(&Scenario{Name: "req-calls-linearizable", Prop: "C11", Horizon: 30 * time.Minute, Weight: 1, Run: c03Run})
+	register(&Scenario{Name: "concurrent-replies", Prop: "C11", Horizon: time.Hour, Weight: 1, Run: c05Run})
 }
 
 // c11InprocTwo: two inproc addresses. The accept loop of address A is away for
